@@ -1188,7 +1188,7 @@ TEXT ·openAsm(SB), NOSPLIT, $0-112
     MOVQ tagSize+8(FP), TagSize
     SUBQ TagSize, CipherLen
     ADDQ CipherLen, Cipher
-    constantTimeCompare(ETag, Cipher, TagSize,Reg1,Reg2,RegT1)
+    constantTimeCompare(Cipher, ETag, TagSize,Reg1,Reg2,RegT1)  // the XOR lands in the scratch copy of the expected tag, never in the caller's ciphertext
 
     CMPQ Reg2, $0
     JNE tagUnMatch
